@@ -104,8 +104,8 @@ type site struct{ target, syscall string }
 
 var sites = []site{{"src", "newfstatat"}, {"src", "openat"}, {"src", "fstat"}, {"src", "read"}, {"src", "close"}, {"dst", "openat"}, {"dst", "write"}, {"dst", "write"}, {"dst", "close"}}
 
-var allSrcKinds = []string{"file", "missing", "dir", "mode000", "symlink_ok", "dangling", "loop", "spacename", "nonascii_name", "longname", "same_as_dst", "emptyarg", "fifo", "stdin", "relative", "dotslash", "barename", "dotdot_via_symlink"}
-var allDstKinds = []string{"absent", "empty", "shorter", "equal", "longer", "old_image", "ro_file", "ro_dir", "parent_missing", "parent_is_file", "is_dir", "symlink_file", "dangling_symlink", "dev_full", "relative", "dotdot", "longname", "emptyarg", "dev_null", "trailing_slash", "dir_no_search", "hardlink_to_src", "symlink_to_src", "barename", "rw_file_in_ro_dir", "dotdot_via_symlink"}
+var allSrcKinds = []string{"file", "missing", "dir", "mode000", "symlink_ok", "dangling", "loop", "spacename", "nonascii_name", "longname", "same_as_dst", "emptyarg", "fifo", "stdin", "relative", "dotslash", "barename", "dotdot_via_symlink", "other_readable"}
+var allDstKinds = []string{"absent", "empty", "shorter", "equal", "longer", "old_image", "ro_file", "ro_dir", "parent_missing", "parent_is_file", "is_dir", "symlink_file", "dangling_symlink", "dev_full", "relative", "dotdot", "longname", "emptyarg", "dev_null", "trailing_slash", "dir_no_search", "hardlink_to_src", "symlink_to_src", "barename", "rw_file_in_ro_dir", "dotdot_via_symlink", "other_writable"}
 var allShapes = []string{"src-dst", "src-dst-lst", "none", "src", "four", "d-src-dst", "d-only", "v", "help", "badflag", "src-dst-dashlst", "src-dst-v", "d-src"}
 var allLstKinds = []string{"ok", "parent_missing", "same_as_dst", "existing", "same_as_src", "is_dir", "dev_full", "symlink_to_dst", "symlink_to_src", "ro_existing"}
 
@@ -129,7 +129,7 @@ func kindGrid(progs []*c19Prog, baseSeed uint64) []*Scenario {
 		s := &Scenario{Seed: deriveSeed(baseSeed, 503, n), ProgName: p.Name, Header: p.Header, Body: p.Body, Enc: "ascii", Shape: "src-dst", SrcKind: "file", DstKind: "absent"}
 		s.DstPrefillSeed = s.Seed
 		mut(s)
-		if (s.SrcKind == "mode000" || s.DstKind == "ro_file" || s.DstKind == "ro_dir" || s.DstKind == "dir_no_search" || s.DstKind == "rw_file_in_ro_dir") && s.Uid == 0 {
+		if (s.SrcKind == "mode000" || s.SrcKind == "other_readable" || s.DstKind == "ro_file" || s.DstKind == "ro_dir" || s.DstKind == "dir_no_search" || s.DstKind == "rw_file_in_ro_dir" || s.DstKind == "other_writable") && s.Uid == 0 {
 			s2 := *s
 			s2.Uid = nobody
 			s2.Seed = deriveSeed(baseSeed, 504, n)
@@ -181,6 +181,9 @@ func kindGrid(progs []*c19Prog, baseSeed uint64) []*Scenario {
 			}
 		}
 	}
+	mk(flat, func(s *Scenario) { s.Stdin = "closed" })
+	mk(flat, func(s *Scenario) { s.Cwd = "readonly"; s.Uid = nobody })
+	mk(flat, func(s *Scenario) { s.Cwd = "root" })
 	mk(flat, func(s *Scenario) { s.BOM = true })
 	mk(flat, func(s *Scenario) { s.MixedEOL = 7 })
 	mk(flat, func(s *Scenario) { s.Argv0 = "nask" })
@@ -242,8 +245,8 @@ func (c *c19Ctx) genScenario(seed uint64, progs []*c19Prog) *Scenario {
 	if s.Shape == "src-dst-lst" || s.Shape == "four" {
 		s.LstKind = pick(r, []string{"ok", "ok", "ok", "parent_missing", "same_as_dst", "existing", "same_as_src", "is_dir", "dev_full", "symlink_to_dst", "symlink_to_src", "ro_existing"})
 	}
-	srcKinds := []string{"file", "missing", "dir", "mode000", "symlink_ok", "dangling", "loop", "spacename", "nonascii_name", "longname", "same_as_dst", "emptyarg", "fifo", "stdin", "relative", "dotslash", "barename", "dotdot_via_symlink"}
-	s.SrcKind = srcKinds[r.weighted([]int{70, 3, 2, 2, 2, 1, 1, 2, 2, 1, 2, 1, 3, 3, 2, 2, 5, 2})]
+	srcKinds := []string{"file", "missing", "dir", "mode000", "symlink_ok", "dangling", "loop", "spacename", "nonascii_name", "longname", "same_as_dst", "emptyarg", "fifo", "stdin", "relative", "dotslash", "barename", "dotdot_via_symlink", "other_readable"}
+	s.SrcKind = srcKinds[r.weighted([]int{70, 3, 2, 2, 2, 1, 1, 2, 2, 1, 2, 1, 3, 3, 2, 2, 5, 2, 2})]
 	if (s.Shape == "d-src-dst" || s.Shape == "d-src") && s.SrcKind == "file" && r.Chance(1, 3) {
 		s.SrcKind = "barename" // switches next to bare names: option parsing may swallow an unusual first character
 	}
@@ -251,8 +254,8 @@ func (c *c19Ctx) genScenario(seed uint64, progs []*c19Prog) *Scenario {
 		s.Break = 1 + r.Intn(4)
 		s.BreakLine = r.Intn(len(s.Header) + len(s.Body))
 	}
-	dstKinds := []string{"absent", "empty", "shorter", "equal", "longer", "old_image", "ro_file", "ro_dir", "parent_missing", "parent_is_file", "is_dir", "symlink_file", "dangling_symlink", "dev_full", "relative", "dotdot", "longname", "emptyarg", "dev_null", "trailing_slash", "dir_no_search", "hardlink_to_src", "symlink_to_src", "barename", "rw_file_in_ro_dir", "dotdot_via_symlink"}
-	s.DstKind = dstKinds[r.weighted([]int{35, 4, 8, 5, 10, 6, 3, 3, 3, 2, 3, 4, 3, 3, 4, 3, 1, 1, 2, 2, 2, 2, 2, 4, 3, 3})]
+	dstKinds := []string{"absent", "empty", "shorter", "equal", "longer", "old_image", "ro_file", "ro_dir", "parent_missing", "parent_is_file", "is_dir", "symlink_file", "dangling_symlink", "dev_full", "relative", "dotdot", "longname", "emptyarg", "dev_null", "trailing_slash", "dir_no_search", "hardlink_to_src", "symlink_to_src", "barename", "rw_file_in_ro_dir", "dotdot_via_symlink", "other_writable"}
+	s.DstKind = dstKinds[r.weighted([]int{35, 4, 8, 5, 10, 6, 3, 3, 3, 2, 3, 4, 3, 3, 4, 3, 1, 1, 2, 2, 2, 2, 2, 4, 3, 3, 2})]
 	if (s.DstKind == "hardlink_to_src" || s.DstKind == "symlink_to_src") && s.SrcKind != "file" {
 		s.DstKind = "absent"
 	}
@@ -270,7 +273,16 @@ func (c *c19Ctx) genScenario(seed uint64, progs []*c19Prog) *Scenario {
 		s.Argv0 = pick(r, []string{"nask", "gosk-2.0", "as"})
 	}
 	s.SrcMtime = int64(r.Intn(2000000000)) + 1
-	if r.Chance(1, 5) || ((s.SrcKind == "mode000" || s.DstKind == "ro_file" || s.DstKind == "ro_dir" || s.DstKind == "dir_no_search" || s.DstKind == "rw_file_in_ro_dir") && r.Chance(3, 4)) {
+	if s.SrcKind != "stdin" && r.Chance(1, 12) { // (with fd 0 closed /dev/stdin is whatever the runtime reopened there: not a source)
+		s.Stdin = "closed"
+	}
+	// a current directory other than the world: only with absolute path arguments
+	absArgs := s.SrcKind != "relative" && s.SrcKind != "dotslash" && s.SrcKind != "barename" && s.SrcKind != "dotdot_via_symlink" &&
+		s.DstKind != "relative" && s.DstKind != "dotdot" && s.DstKind != "barename" && s.DstKind != "dotdot_via_symlink" && s.Shape != "src-dst-dashlst" && s.Shape != "src-dst-v"
+	if absArgs && r.Chance(1, 10) {
+		s.Cwd = pick(r, []string{"root", "readonly"})
+	}
+	if r.Chance(1, 5) || ((s.SrcKind == "mode000" || s.SrcKind == "other_readable" || s.DstKind == "ro_file" || s.DstKind == "ro_dir" || s.DstKind == "dir_no_search" || s.DstKind == "rw_file_in_ro_dir" || s.DstKind == "other_writable") && r.Chance(3, 4)) {
 		s.Uid = nobody
 	}
 	if s.SrcKind == "stdin" {
